@@ -139,8 +139,10 @@ void binary_mixed(char const* desc)
             if (X::from_i(v) >= xmin<T>() && X::from_i(v) <= xmax<T>()) k.push_back((T)v);
         return k;
     };
-    auto an_s = thin(N1{}, 10), bn_s = thin(N2{}, 10);
-    auto ad_s = thin(D1{}, 6), bd_s = thin(D2{}, 6);
+    auto an_s = thin(N1{}, 10);
+    auto bn_s = thin(N2{}, 10);
+    auto ad_s = thin(D1{}, 6);
+    auto bd_s = thin(D2{}, 6);
     using P1 = decltype(N1{} * D2{});   // lhs.numerator * rhs.denominator
     using P2 = decltype(N2{} * D1{});   // rhs.numerator * lhs.denominator
     using P3 = decltype(D1{} * D2{});
